@@ -9,6 +9,7 @@ import (
 	"net/url"
 	"os"
 	"runtime/pprof"
+	"sort"
 	"servitor/jtp"
 	"servitor/object"
 	"servitor/verifkit"
@@ -200,21 +201,99 @@ func verifExercise(item any) int {
 	return size
 }
 
+/*
+	Systematic part: a well-formed skeleton of each kind with ONE key replaced by each value of a fixed
+	list of classes (wrong types, null, empty, nested objects with and without ids and types, lists,
+	numbers at the boundaries) - the schema-based enumeration next to the random values above.
+*/
+var verifSkeletons = []map[string]any{
+	{"type": "Note", "id": "https://offline.invalid/n", "name": "title", "content": "<p>text <a href=\"https://x.example/\">l</a></p>", "mediaType": "text/html", "published": "2024-01-02T03:04:05Z",
+		"updated": "2024-01-03T03:04:05Z", "attributedTo": map[string]any{"type": "Person", "id": "https://offline.invalid/a", "name": "author"},
+		"audience": "https://offline.invalid/g", "inReplyTo": map[string]any{"type": "Note", "id": "https://offline.invalid/p", "content": "parent"},
+		"url": []any{map[string]any{"type": "Link", "href": "https://x.example/v.mp4", "mediaType": "video/mp4"}},
+		"attachment": []any{map[string]any{"type": "Image", "url": "https://x.example/i.png", "name": "pic"}},
+		"replies": map[string]any{"type": "Collection", "id": "https://offline.invalid/n/replies", "totalItems": 1, "items": []any{map[string]any{"type": "Note", "id": "https://offline.invalid/r", "inReplyTo": "https://offline.invalid/n", "content": "reply"}}}},
+	{"type": "Person", "id": "https://offline.invalid/a", "name": "someone", "preferredUsername": "some", "summary": "<p>bio</p>", "published": "2020-01-02T03:04:05Z",
+		"icon": map[string]any{"type": "Image", "url": "https://x.example/i.png", "mediaType": "image/png"}, "image": []any{map[string]any{"type": "Image", "url": "https://x.example/b.png"}},
+		"outbox": map[string]any{"type": "OrderedCollection", "id": "https://offline.invalid/a/outbox", "totalItems": 1, "orderedItems": []any{
+			map[string]any{"type": "Create", "id": "https://offline.invalid/c", "actor": "https://offline.invalid/a", "object": map[string]any{"type": "Note", "id": "https://offline.invalid/n2", "content": "x"}}}}},
+	{"type": "Announce", "id": "https://offline.invalid/c", "published": "2024-01-02T03:04:05Z", "actor": map[string]any{"type": "Person", "id": "https://offline.invalid/a", "name": "actor"},
+		"object": map[string]any{"type": "Note", "id": "https://offline.invalid/n", "content": "announced", "attributedTo": map[string]any{"type": "Person", "id": "https://offline.invalid/a", "name": "author"}}},
+	{"type": "OrderedCollection", "id": "https://offline.invalid/col", "totalItems": 2, "orderedItems": []any{map[string]any{"type": "Note", "id": "https://offline.invalid/n", "content": "item"}, "https://offline.invalid/gone"},
+		"first": map[string]any{"type": "OrderedCollectionPage", "orderedItems": []any{map[string]any{"type": "Person", "id": "https://offline.invalid/a", "name": "a"}}}},
+}
+
+var verifDeviations = []any{nil, true, 0.0, -1.0, 1.5, 1e300, 18446744073709551616.0, "", "text", "\x1b[31m", "https://offline.invalid/x", "/relative", "http://[::1", "not a date", "text/plain", []any{}, []any{nil}, []any{"a", 1.0, map[string]any{}},
+	map[string]any{}, map[string]any{"type": "Note"}, map[string]any{"type": "Person"}, map[string]any{"type": "Person", "name": "no id"}, map[string]any{"id": "https://offline.invalid/z"},
+	map[string]any{"type": "Link"}, map[string]any{"type": "Link", "href": 7.0}, map[string]any{"type": "Collection", "items": "https://offline.invalid/single"}, map[string]any{"type": "Create"},
+	map[string]any{"type": "Note", "id": "https://other.invalid/foreign", "content": "foreign"}, []any{map[string]any{"type": "Person", "name": "first without id"}, map[string]any{"type": "Person", "id": "https://offline.invalid/a2", "name": "second"}}}
+
+func verifSystematicCount() int {
+	n := 0
+	for _, sk := range verifSkeletons {
+		n += (len(sk) + 3) * len(verifDeviations)
+	}
+	return n
+}
+
+func verifSystematic(index int) (map[string]any, int, string) {
+	extraKeys := []string{"height", "width", "href"}
+	for kind, sk := range verifSkeletons {
+		keys := []string{}
+		for k := range sk {
+			keys = append(keys, k)
+		}
+		sort.Strings(keys)
+		keys = append(keys, extraKeys...)
+		span := len(keys) * len(verifDeviations)
+		if index >= span {
+			index -= span
+			continue
+		}
+		key, dev := keys[index/len(verifDeviations)], verifDeviations[index%len(verifDeviations)]
+		o := map[string]any{}
+		for k, v := range sk {
+			o[k] = v
+		}
+		if dev == nil && index%2 == 0 {
+			delete(o, key)
+		} else {
+			o[key] = dev
+		}
+		return o, []int{0, 1, 2, 3}[kind], fmt.Sprintf("skeleton %d, %s := %v", kind, key, verifkit.Clip(fmt.Sprint(dev), 40))
+	}
+	return verifSkeletons[0], 0, "skeleton 0 unchanged"
+}
+
 func TestVerifRender(t *testing.T) {
 	var in struct {
-		From  int `json:"from"`
-		Count int `json:"count"`
+		From       int `json:"from"`
+		Count      int `json:"count"`
+		Systematic int `json:"systematic"`
+		Only       int `json:"only"`
 	}
 	verifkit.In(&in)
+	if in.Systematic < 0 || in.Systematic > verifSystematicCount() {
+		in.Systematic = verifSystematicCount()
+	}
 	out := verifkit.Out()
 	defer out.Close()
 	jtp.VerifSetTimeout(500 * time.Millisecond)
 	base := verifkit.Seed()
-	for i := in.From; i < in.Count; i++ {
+	for i := in.From; i < in.Count && (in.Only == 0 || i < in.From+in.Only); i++ {
 		rng := rand.New(rand.NewSource(base*1000003 + int64(i)))
 		o := verifObject(rng, 2+rng.Intn(3))
 		kind := rng.Intn(6)
 		desc := fmt.Sprintf("type=%v keys=%d kind=%d", o["type"], len(o), kind)
+		if i >= in.Count-in.Systematic {
+			/* the last cases are the systematic single deviations */
+			var what string
+			o, kind, what = verifSystematic(i - (in.Count - in.Systematic))
+			if rng.Intn(3) == 0 {
+				kind = 4
+			}
+			desc = what
+		}
 		if c, ok := o["content"].(string); ok {
 			desc += " content=" + verifkit.Clip(c, 60) + fmt.Sprintf("(%d bytes, %v)", len(c), o["mediaType"])
 		}
